@@ -327,7 +327,8 @@ func (it *interp) addErr(off int, rule *gast.Rule, inner, kind string, isPanic b
 		e.HasRule = true
 		e.Rule = rule.Name
 		if rule.Display != "" {
-			e.Rule = rule.Display
+			// the display name is shown as written in the grammar, i.e. as the quoted literal
+			e.Rule = gast.LitSrc(rule.Display, false)
 		}
 	}
 	it.errs = append(it.errs, e)
@@ -545,33 +546,34 @@ func (it *interp) eval(e *gast.Expr, pos int, st *state, fr frame, h *handler, r
 		return true, pos + w, it.in[pos : pos+w], st
 
 	case gast.AndCode, gast.NotCode:
-		it.event('P', e, pos, nil, fr, st)
+		idx := len(it.res.Trace) + it.res.Dropped
+		key := mon.LabelCoin(it.event('P', e, pos, nil, fr, st))
 		sp := e.Code.Spec
-		if k := sp.PanicKind(e.Code.ID, pos); k != 0 {
+		if k := sp.PanicKind(e.Code.ID, key); k != 0 {
 			panic(blockPanic{k, e.Code.ID})
 		}
-		it.blockErr(e, pos, pos, rule)
+		it.blockErr(e, key, pos, rule)
 		n := 0
 		if st != nil {
 			n = mon.StateN(st.m)
 		}
-		b := sp.PredBool(e.Code.ID, pos, n)
+		b := sp.PredBool(e.Code.ID, key, idx, n)
 		if e.Kind == gast.NotCode {
 			b = !b
 		}
 		return b, pos, nil, st
 
 	case gast.StateCode:
-		it.event('S', e, pos, nil, fr, st)
+		key := mon.LabelCoin(it.event('S', e, pos, nil, fr, st))
 		nst := st
 		if st != nil {
 			nst = st.clone()
-			mon.ApplyStateOps(nst.m, e.Code.ID, pos, e.Code.Spec.S)
+			mon.ApplyStateOps(nst.m, e.Code.ID, key, e.Code.Spec.S)
 		}
-		if k := e.Code.Spec.PanicKind(e.Code.ID, pos); k != 0 {
+		if k := e.Code.Spec.PanicKind(e.Code.ID, key); k != 0 {
 			panic(blockPanic{k, e.Code.ID})
 		}
-		it.blockErr(e, pos, pos, rule)
+		it.blockErr(e, key, pos, rule)
 		return true, pos, nil, nst
 
 	case gast.Throw:
